@@ -123,7 +123,9 @@ int radmsg_copy_attrs(struct radmsg *dst,
     int n = 0;
 
     for (node = list_first(list); node; node = list_next(node)) {
-        if (radmsg_add(dst, copytlv((struct tlv *)node->data), 0) != 1) {
+        struct tlv *copy = copytlv((struct tlv *)node->data);
+        if (radmsg_add(dst, copy, 0) != 1) {
+            freetlv(copy);
             n = -1;
             break;
         }
